@@ -808,7 +808,7 @@ func opHandlerBind(env *LEnv, args *LVal) *LVal {
 			return env.Errorf("binding type is not a symbol: %v", sym.Type)
 		}
 	}
-	if len(args.Cells) == 0 {
+	if len(forms) == 0 {
 		return Nil()
 	}
 	var val *LVal
